@@ -47,6 +47,12 @@ fn process_keys_and_args(parts: &[RespFrame], start_idx: usize, num_keys: usize)
 
 /// Handle EVAL command with proper context passing
 pub fn handle_eval_with_db(storage: &Arc<StorageEngine>, parts: &[RespFrame], db_index: usize) -> Result<RespFrame> {
+    handle_eval_with_publish(storage, parts, db_index, None)
+}
+
+/// EVAL with the server's PUBLISH handed in, so that redis.call('PUBLISH', ...) works inside the script
+pub fn handle_eval_with_publish(storage: &Arc<StorageEngine>, parts: &[RespFrame], db_index: usize,
+                                publish: Option<crate::storage::lua_engine::PublishFn>) -> Result<RespFrame> {
     if parts.len() < 3 {
         return Ok(RespFrame::error("ERR wrong number of arguments for 'eval' command"));
     }
@@ -89,6 +95,7 @@ pub fn handle_eval_with_db(storage: &Arc<StorageEngine>, parts: &[RespFrame], db
     let ctx = LuaCommandContext {
         db_index,
         storage: storage.clone(),
+        publish,
     };
     
     let lua_engine = match get_lua_engine(storage.clone()) {
